@@ -37,6 +37,7 @@ class Ctx(object):
     def __init__(self, it, consts, m1, m2, n2):
         self.it, self.consts, self.m1, self.m2, self.n2 = it, consts, m1, m2, n2
         self.partial = []
+        self.stray = []
 
     def decode(self, k):
         c = self.consts
@@ -111,7 +112,9 @@ class DofVec(object):
             raise CheckerError('line %d: store into a reduced vector' % node.lineno)
         d = self.ctx.decode(k)
         if d is None:
-            raise SymRaise('UndecodableIndex', ('store at %s is not an amplitude position' % _P(k),), node)
+            # not the position of any amplitude in the layout num0 | num1*m1 | num2*m2*n2 that get_size / cfuvw / fg use
+            self.ctx.stray.append((str(normal(_P(k))), node.lineno))
+            return
         fam, vars_, p = d
         v = _P(pysym._unwrap0(v))
         if fam == 0:
@@ -436,6 +439,13 @@ def check_model(led, model, pdC, pdT):
         led.fail(nm, FE, {'loops': sorted(set('family %d: %s (line %d)' % x for x in ctx.partial))[:4]}, signature='partial-loop')
     else:
         led.ok(nm, FE)
+    nm = '%s[%s]/every-store-addresses-an-amplitude-of-the-layout' % (FE, tag)
+    if ctx.stray:
+        led.fail(nm, FE, {'stores': sorted(set('index %s (line %d)' % x for x in ctx.stray))[:4],
+                          'layout': 'num0 leading amplitudes | num1 per i1 | num2 per (i2, j2): position num0 + num1*m1 + num2*((j2-j0)*m2 + (i2-i0)) + p'},
+                 signature='stray-store', replay=replay_orders(model, pdC, pdT))
+    else:
+        led.ok(nm, FE)
     for path, out in res:
         if out[0] == 'raise':
             led.fail('%s[%s]/no-exception' % (FE, tag), FE, {'raises': out[1].tname, 'args': [str(a)[:160] for a in out[1].eargs],
@@ -533,8 +543,31 @@ def check_model(led, model, pdC, pdT):
                 if ok:
                     led.ok(name, FE)
                 else:
-                    led.fail(name, FE, {'code': str(got)[:400], 'contract': str(trig.tnormal(want))[:400], 'difference': bad}, signature='fext-any:%d,%d' % (fam, p))
+                    led.fail(name, FE, {'code': str(got)[:400], 'contract': str(trig.tnormal(want))[:400], 'difference': bad}, signature='fext-any:%d,%d' % (fam, p),
+                             replay=replay_orders(model, pdC, pdT))
     led.solver_time('z3-feasibility', it.solver_time)
+
+
+_RP = {}
+
+
+def replay_orders(model, pdC, pdT):
+    """calc_fext against quadrature of the work on fg for unequal series orders, on the real package"""
+    key = (model, pdC, pdT)
+    if key in _RP:
+        return _RP[key]
+    from .. import pyreplay, shell_oracle as O
+    pay = dict(m1=4, m2=3, n2=5, r2=250., H=500., alphadeg=15., laminaprop=[123.55e3, 8.708e3, 0.319, 5.695e3, 5.695e3, 5.695e3],
+               stack=[30, -30, 45], plyt=0.125, model=model, pdC=pdC, pdT=pdT, T=1000., P=(0. if 'fsdt' in model else 0.05),
+               Nxxtop=[10.] + [float(k + 1) for k in range(10)], forces=[[100., 30., 1., 2., 3.]], uTM=0.4, thetaTdeg=1.2)
+    if model.startswith('iso_'):
+        pay['iso'] = [71e3, 0.33, 2.]
+    try:
+        r = pyreplay.run_real(O.FEXT, pay)
+        _RP[key] = {'reproduced': bool(r.get('n_mismatch')), 'input': pay, 'result': r, 'real_function': 'ConeCyl.calc_fext vs quadrature of the work on fg'}
+    except Exception as e:
+        _RP[key] = {'reproduced': False, 'replay_error': repr(e)}
+    return _RP[key]
 
 
 def _job(led, j):
